@@ -31,17 +31,35 @@ class Proc:
     def __init__(self, exe):
         self.exe = exe
 
-    def run(self, lines, timeout=900):
-        if not lines:
-            return []
+    def _raw(self, lines, timeout):
         rc, out, err = core.sh([self.exe], inp=("\n".join(lines) + "\n").encode(), timeout=timeout)
         res = out.split("\n")
         if res and res[-1] == "":
             res.pop()
-        if rc != 0 or len(res) != len(lines):
-            raise RuntimeError("%s: rc=%d, %d result lines for %d cases; stderr=%s; last=%s"
-                               % (os.path.basename(self.exe), rc, len(res), len(lines), err[-300:], res[-1:] ))
-        return res
+        return rc, res, err
+
+    def run(self, lines, timeout=900):
+        if not lines:
+            return []
+        rc, res, err = self._raw(lines, timeout)
+        if rc == 0 and len(res) == len(lines):
+            return res
+        # the process died (abort / stray signal / timeout) in the middle of the batch: keep what was answered,
+        # attribute the crash to the first unanswered case, continue after it
+        out = list(res[:len(lines)])
+        while len(out) < len(lines):
+            i = len(out)
+            rc1, r1, e1 = self._raw([lines[i]], min(timeout, 300))
+            if rc1 == 0 and len(r1) == 1:
+                out.append(r1[0])
+            else:
+                out.append("CRASH rc=%d %s" % (rc1, " ".join((e1 or "").split())[-160:]))
+            if len(out) < len(lines):
+                rc2, r2, e2 = self._raw(lines[len(out):], timeout)
+                out += r2[:len(lines) - len(out)]
+                if rc2 == 0:
+                    break
+        return out[:len(lines)]
 
 
 def par_run(proc, lines, chunks=12, timeout=900):
@@ -339,7 +357,7 @@ class Run:
         for i, (cl, r) in enumerate(zip(clines, cres)):
             cse, size = meta[i]
             tag = r.split()[0] if r else "EMPTY"
-            self.h("session:%s:%s" % (cse["kind"], tag if tag in ("OK", "NULL", "MEMERR", "SEGV", "BADROUNDTRIP", "SKIP") else "OTHER"))
+            self.h("session:%s:%s" % (cse["kind"], tag if tag in ("OK", "NULL", "MEMERR", "SEGV", "BADROUNDTRIP", "SKIP", "CRASH") else "OTHER"))
             exact = size >= cse["est"]
             sig = ("sess", cse["kind"], tag, exact, self.shape(cse), len(r.split("log=")[1].split(",")) if "log=" in r else 0)
             ctx.count(sig, nontrivial=(tag in ("OK", "MEMERR", "NULL")))
@@ -347,7 +365,7 @@ class Run:
                 continue
             # --- direct oracle on the implementation
             what = None
-            if tag in ("SEGV", "BADROUNDTRIP", "EMPTY"):
+            if tag in ("SEGV", "BADROUNDTRIP", "EMPTY", "CRASH"):
                 what = "static CCtx of %d bytes (estimate %d): %s - memory outside the block touched or output damaged" % (size, cse["est"], tag)
             elif exact and tag != "OK":
                 what = "static CCtx of exactly the estimate (%d bytes) does not complete the covered operation: %s" % (size, r[:80])
@@ -381,14 +399,14 @@ class Run:
 
     def known_key(self, cse, cline, tag, model_result):
         """Known finding C14-ccparams-level-tier: the *_usingCCtxParams estimators size level-derived tables from the
-        srcSize-unknown row only.  Attached only when (a) the estimate came from such a call with hashLog / chainLog /
-        strategy left to the level, (b) the source size is known to the reset and lies in a small-source tier,
+        srcSize-unknown row only.  Attached only when (a) the estimate came from such a call with a memory-relevant
+        cParam (windowLog / chainLog / hashLog / minMatch / strategy) left to the level, (b) the source size is known to the reset and lies in a small-source tier,
         (c) the extracted model predicts the same memory_allocation."""
         if cse["kind"] not in ("PP2", "PPS") or tag != "MEMERR" or model_result != "MEMERR":
             return None
         cp = cse["pp"]["cp"]
-        if cp[1] and cp[2] and cp[6]:
-            return None
+        if cp[0] and cp[1] and cp[2] and cp[4] and cp[6]:
+            return None       # every memory-relevant field (windowLog, chainLog, hashLog, minMatch, strategy) is explicit
         pledged = int(self.model_line(cline, 0).split()[4], 16)
         if pledged == UNKNOWN or pledged > 256 * KB:
             return None
@@ -456,7 +474,7 @@ class Run:
             self.h("cdict:" + tag)
             ctx.count(("cdict", tag, size >= e, cl.split()[9], cl.split()[7], cl.split()[11]))
             what = None
-            if tag in ("SEGV", "BADROUNDTRIP", "USEERR"):
+            if tag in ("SEGV", "BADROUNDTRIP", "USEERR", "CRASH"):
                 what = "static CDict of %d bytes (estimate %d): %s" % (size, e, r[:80])
             elif size >= e and tag != "OK":
                 what = "ZSTD_initStaticCDict refuses a buffer of exactly ZSTD_estimateCDictSize_advanced (%d bytes)" % size
@@ -494,7 +512,7 @@ class Run:
             if a != b:
                 self.disagreements.append(("value", "EDDICT %x %x" % (d, br), a, b))
             what = None
-            if tag in ("SEGV", "BADROUNDTRIP"):
+            if tag in ("SEGV", "BADROUNDTRIP", "CRASH"):
                 what = "static DDict of %d bytes (estimate %d): %s" % (size, e, tag)
             elif (size >= e) != (tag == "OK"):
                 what = "ZSTD_initStaticDDict(%d bytes) vs ZSTD_estimateDDictSize %d: %s" % (size, e, tag)
@@ -528,7 +546,7 @@ class Run:
         for _ in range(150 if ctx.quick else 1500):
             mode = rng.choice("WWLD")
             wlimit_log = rng.choice([10, 10, 11, 12, 16, 17, 18, 20, 23]) if mode != "D" else 27
-            maxW = (1 << wlimit_log) + (rng.choice([0, 0, 1, 1023, 12345, (1 << wlimit_log) // 8, (1 << wlimit_log) // 8 * 3]) if mode == "W" else 0)
+            maxW = (1 << wlimit_log) + (rng.choice([0, 0, -1, 1, 1023, 12345, (1 << wlimit_log) // 8, (1 << wlimit_log) // 8 - 1, (1 << wlimit_log) // 8 * 3]) if (mode == "W" and wlimit_log > 10) else 0)
             if mode == "D":
                 maxW = gen_const("c_ZSTD_MAXWINDOWSIZE_DEFAULT")
             maxB = rng.choice([0, 0, 0, 1024, 4096, 70000])
@@ -587,7 +605,7 @@ class Run:
                 peak = int(r.split("peak=")[1], 16) if "peak=" in r else 0
                 for (k, wl, ln), t in zip(l[6], ftoks):
                     ctx.count(("dstream", bool(l[1]), l[0], l[5], t[0], k, ln < 4, "-" in t.split("/")[-1] if "/" in t else None))
-                if any(x in r for x in ("SEGV", "BADDECODE", "!alloc-before-reject", "!sizeof<live", "BADTOKEN")):
+                if any(x in r for x in ("SEGV", "BADDECODE", "!alloc-before-reject", "!sizeof<live", "BADTOKEN", "CRASH")):
                     what = "streaming decoder misbehaves on a hand-made frame: %s" % r[:160]
                 elif not l[1] and peak > est:
                     what = "heap DStream holds %d bytes, more than ZSTD_estimateDStreamSize(maxWindowSize=%d) = %d" % (peak, l[3], est)
@@ -616,6 +634,33 @@ class Run:
                 if cm != mr:
                     self.disagreements.append(("dstream", cl, cm, mr))
         ctx.sample(dict(kind="dstream", c_case=clines[0][:300], c_result=cres[0][:300], model=mres[0][:300]))
+        # real multi-block frames through the streaming decoder with small chunks (direct oracle: output, peak, sizeof)
+        dl, dmeta = [], []
+        for _ in range(24 if ctx.quick else 200):
+            wlog = rng.choice([10, 10, 11, 12, 13, 14, 15, 16, 17, 18, 20])
+            srcLen = rng.choice([1, 1000, 5000, 40000, 150000, 300000, 700000])
+            maxWlog = rng.choice([wlog, wlog, wlog + 1, 27, max(10, wlog - 1)])
+            dl.append("DRT %s %s %s %s %s %s" % (hx(wlog), hx(srcLen), hx(rng.randint(0, 999)),
+                                               hx(rng.choice([1, 7, 100, 4096, 70000, 200000])), hx(rng.choice([1, 3, 1000, 1 << 20])), hx(maxWlog)))
+            dmeta.append((wlog, srcLen, maxWlog))
+        de = par_run(self.c, ["EDSTREAM " + hx(1 << m[2]) for m in dmeta])
+        dr = par_run(self.c, dl, timeout=1500)
+        for ln, r, (wlog, srcLen, maxWlog), e in zip(dl, dr, dmeta, de):
+            tag = r.split()[0]
+            self.h("drt:" + tag)
+            ctx.count(("drt", tag, wlog, srcLen > (1 << wlog), maxWlog >= wlog))
+            peak = int(r.split("peak=")[1].split()[0], 16) if "peak=" in r else 0
+            what = None
+            if tag not in ("OK", "W"):
+                what = "streaming decoder fails on a frame produced by the library (windowLog %d, limit 2^%d): %s" % (wlog, maxWlog, r[:100])
+            elif peak > int(e, 16):
+                what = "heap DStream peak %d exceeds ZSTD_estimateDStreamSize(2^%d) = %d" % (peak, maxWlog, int(e, 16))
+            elif tag == "OK" and "sizeof=" in r and int(r.split("sizeof=")[1].split()[0], 16) < int(r.split("live=")[1].split()[0], 16):
+                what = "ZSTD_sizeof_DCtx under-reports the live allocations"
+            elif tag == "W" and maxWlog >= wlog:
+                what = "frame with windowLog %d rejected although the limit is 2^%d" % (wlog, maxWlog)
+            if what:
+                ctx.violation(dict(kind="drt", c_case=ln, c_result=r), what=what)
         # decodingBufferSize / frame window values
         vl = []
         for _ in range(300 if ctx.quick else 5000):
